@@ -167,14 +167,24 @@ func (s *Stream) Find(f Finding) {
 	}
 	if len(s.Finds) < 200 {
 		s.Finds = append(s.Finds, f)
+		s.writeStats() // findings survive a later crash or hang of the stream
 	}
 }
 
 func (s *Stream) Close() {
+	s.mu.Lock()
+	defer s.mu.Unlock()
 	s.ops.Flush()
 	s.impl.Flush()
 	s.fo.Close()
 	s.fi.Close()
+	s.writeStats()
+}
+
+// writeStats must be called with s.mu held.
+func (s *Stream) writeStats() {
+	s.ops.Flush()
+	s.impl.Flush()
 	st := map[string]interface{}{
 		"stream": s.name, "evaluations": s.N, "distinct": len(s.seen), "distinct_nontrivial": s.NonTr,
 		"dist": s.Dist, "findings": s.Finds, "samples": s.Samp, "seed": Seed(),
